@@ -333,6 +333,11 @@ class Prog:
             require(tuple(R.shape) == tuple(Mref.shape), f"{op}/result-shape", variant=variant, got=R.shape,
                     want=Mref.shape)
             X = R.todense()
+            if hasattr(R, "toarray") and self.rng.random() < 0.2:      # the scipy.sparse-style alias of todense()
+                X2 = np.asarray(R.toarray())
+                require(X2.shape == X.shape and X2.dtype == X.dtype and bool(np.array_equal(X2, X, equal_nan=True)),
+                        f"{op}/toarray-differs-from-todense", variant=variant)
+                ctx.count("toarray_compared")
         else:
             X = np.asarray(R)
         require(X.dtype != object, f"{op}/result-is-not-numeric", got=repr(R)[:100])
